@@ -2,15 +2,40 @@
 
 Reads (AST only, no import) `HeaderItem.__init__`, `HeaderItem.get_length` and
 `DalvikPacker.__init__` and emits
-  * the statements of HeaderItem.__init__ that can raise, in SOURCE ORDER (`checkOrder`),
+  * the statements of HeaderItem.__init__ that can raise, in EXECUTION ORDER (`checkOrder`),
   * for each of them the comparison operator, the constants and the exception class,
   * the struct format of the header, the names of the unpacked fields and their byte offsets
     (computed from the format string), in particular of the fields the guards read,
   * the branch table of DalvikPacker.__init__ (endian tag constant -> action).
-A statement that can raise and that this translator does not recognise makes it fail (the check
-records a broken obligation and searches deeper) rather than silently dropping a guard.
+
+The facts are read semantically, not textually.  Accepted without changing the output:
+  * integer / bytes / str constants given as literals, as constant expressions (`0x70`, `1 << 16`,
+    `ord('x')`) or as names of module-level constants that are assigned exactly once;
+  * guards moved into helpers (methods of the same class or module-level functions) that are
+    called as a statement (`self._check_magic()`, `x = self._f(buff)`): the helper is inlined
+    (parameters replaced by the arguments, its locals renamed), up to three levels; a helper that
+    can raise may `return` only as its last statement;
+  * locals (`magic = self.magic`, `computed = zlib.adler32(…)`), also bound by
+    `with buff.raw.getbuffer() as view:`; a local is replaced by its definition at the point of
+    use, and only when every assignment to it (and to whatever its definition reads) is a
+    straight-line statement of the flattened body;
+  * the endian tag read as `(self.endian_tag,) = unpack('<I', R)`, `… = unpack('<I', R)[0]`,
+    `struct.unpack` for `unpack`, or `int.from_bytes(R, 'little')` (the last only after the size
+    guard, which makes the read four bytes long), R = `read_at(buff, OFF, 4)`, directly in or
+    through a local / `self` attribute given to `DalvikPacker(…)`;
+  * the checksummed bytes as `read_at(buff, self.offset + K)` or `buff.raw.getbuffer()[self.offset + K:]`;
+  * the magic test as any disjunction of `magic[i] != c`, `magic[i] not in (…)`, `magic[a:b] != b'..'`,
+    `magic[a:b] not in (b'..', …)`; it is normalised to one set of allowed values per byte position
+    (a `not in` over byte strings only if the strings are exactly a product of per-position sets);
+  * a guard written with its operands swapped; tuples / lists / sets in membership tests;
+  * DalvikPacker.__init__ as an if/elif/else chain or as successive `if`s whose bodies always raise.
+Everything else that can raise (a `raise`, or a call of a helper that can raise, anywhere but in a
+plain `if <test>: …; raise X(…)` guard of a recognised test) makes the translator fail: the check
+records a broken obligation and searches deeper rather than silently dropping or altering a guard.
 """
 import ast
+import copy
+import itertools
 import os
 import re
 import struct
@@ -18,35 +43,145 @@ import struct
 SRC = "androguard/core/dex/__init__.py"
 
 CMP = {ast.Lt: "lt", ast.LtE: "le", ast.Gt: "gt", ast.GtE: "ge", ast.Eq: "eq", ast.NotEq: "ne"}
+FLIP = {"lt": "gt", "le": "ge", "gt": "lt", "ge": "le", "eq": "eq", "ne": "ne"}
+MAX_INLINE = 3
 
 
 class Unrecognised(Exception):
     pass
 
 
-def _cls(tree, name):
-    for n in tree.body:
-        if isinstance(n, ast.ClassDef) and n.name == name:
-            return n
-    raise Unrecognised(f"class {name} not found")
+def _src(node):
+    return ast.unparse(node)
 
 
-def _fn(cls, name):
-    for n in cls.body:
-        if isinstance(n, ast.FunctionDef) and n.name == name:
-            return n
-    raise Unrecognised(f"{cls.name}.{name} not found")
+def _is_self_attr(node, attr=None):
+    return (isinstance(node, ast.Attribute) and isinstance(node.value, ast.Name) and node.value.id == "self"
+            and (attr is None or node.attr == attr))
 
 
-def _has_raise(node):
-    return any(isinstance(x, ast.Raise) for x in ast.walk(node))
+def _walk_same_scope(node):
+    """ast.walk that does not descend into nested function / class definitions and lambdas"""
+    todo = [node]
+    while todo:
+        n = todo.pop()
+        yield n
+        for c in ast.iter_child_nodes(n):
+            if not isinstance(c, (ast.FunctionDef, ast.AsyncFunctionDef, ast.ClassDef, ast.Lambda)):
+                todo.append(c)
 
 
-def _raise_exc(stmts):
-    """exception class name of the single `raise X(...)` reachable in a statement list"""
+class Module:
+    """module-level facts: constants assigned exactly once, functions, classes"""
+
+    def __init__(self, tree):
+        self.tree = tree
+        self.funcs = {n.name: n for n in tree.body if isinstance(n, ast.FunctionDef)}
+        self.classes = {n.name: n for n in tree.body if isinstance(n, ast.ClassDef)}
+        stores = {}
+        for n in tree.body:
+            tg = []
+            if isinstance(n, ast.Assign):
+                tg = n.targets
+            elif isinstance(n, (ast.AnnAssign, ast.AugAssign)):
+                tg = [n.target]
+            for t in tg:
+                for x in ast.walk(t):
+                    if isinstance(x, ast.Name):
+                        stores.setdefault(x.id, []).append(n)
+        for n in tree.body:       # names bound by other module-level statements (for, with, import, def …)
+            if not isinstance(n, (ast.Assign, ast.AnnAssign, ast.AugAssign)):
+                for x in ast.walk(n) if isinstance(n, (ast.For, ast.With, ast.If, ast.Try, ast.While)) else ():
+                    if isinstance(x, ast.Name) and isinstance(x.ctx, ast.Store):
+                        stores.setdefault(x.id, []).append(None)
+        globs = {nm for x in ast.walk(tree) if isinstance(x, ast.Global) for nm in x.names}
+        self.consts = {}
+        for name, sts in stores.items():
+            if len(sts) == 1 and isinstance(sts[0], ast.Assign) and len(sts[0].targets) == 1 \
+                    and isinstance(sts[0].targets[0], ast.Name) and name not in globs \
+                    and name not in self.funcs and name not in self.classes:
+                self.consts[name] = sts[0].value
+
+    def method(self, cls, name):
+        for n in cls.body:
+            if isinstance(n, ast.FunctionDef) and n.name == name:
+                return n
+        return None
+
+
+def const_value(node, mod, depth=0):
+    """value of a constant expression (int / bytes / str), names resolved to module-level constants"""
+    if depth > 8:
+        raise Unrecognised("constant expression too deep: " + _src(node))
+    if isinstance(node, ast.Constant) and isinstance(node.value, (int, bytes, str)) and not isinstance(node.value, bool):
+        return node.value
+    if isinstance(node, ast.Name) and node.id in mod.consts:
+        return const_value(mod.consts[node.id], mod, depth + 1)
+    if isinstance(node, ast.UnaryOp) and isinstance(node.op, (ast.USub, ast.UAdd, ast.Invert)):
+        v = const_value(node.operand, mod, depth + 1)
+        if isinstance(v, int):
+            return -v if isinstance(node.op, ast.USub) else v if isinstance(node.op, ast.UAdd) else ~v
+    if isinstance(node, ast.BinOp):
+        a, b = const_value(node.left, mod, depth + 1), const_value(node.right, mod, depth + 1)
+        if isinstance(a, int) and isinstance(b, int):
+            ops = {ast.Add: lambda: a + b, ast.Sub: lambda: a - b, ast.Mult: lambda: a * b,
+                   ast.FloorDiv: lambda: a // b if b else None, ast.Mod: lambda: a % b if b else None,
+                   ast.LShift: lambda: a << b if 0 <= b < 64 else None, ast.RShift: lambda: a >> b if b >= 0 else None,
+                   ast.BitOr: lambda: a | b, ast.BitAnd: lambda: a & b, ast.BitXor: lambda: a ^ b,
+                   ast.Pow: lambda: a ** b if 0 <= b < 64 and abs(a) < 2 ** 16 else None}
+            f = ops.get(type(node.op))
+            v = f() if f else None
+            if v is not None:
+                return v
+        if isinstance(a, (bytes, str)) and type(a) is type(b) and isinstance(node.op, ast.Add):
+            return a + b
+    if (isinstance(node, ast.Call) and isinstance(node.func, ast.Name) and node.func.id == "ord"
+            and len(node.args) == 1 and not node.keywords):
+        v = const_value(node.args[0], mod, depth + 1)
+        if isinstance(v, (str, bytes)) and len(v) == 1:
+            return ord(v)
+    raise Unrecognised("not a constant expression at line %d: %s" % (getattr(node, "lineno", 0), _src(node)))
+
+
+def const_int(node, mod):
+    v = const_value(node, mod)
+    if not isinstance(v, int):
+        raise Unrecognised("integer constant expected: " + _src(node))
+    return v
+
+
+# ---------------------------------------------------------------- which statements can raise
+def resolve_helper(call, mod, cls):
+    """FunctionDef of `self.m(...)` (m defined in cls) or `f(...)` (f defined in the module), else None"""
+    f = call.func
+    if _is_self_attr(f) and cls is not None:
+        return mod.method(cls, f.attr), True
+    if isinstance(f, ast.Name) and f.id in mod.funcs:
+        return mod.funcs[f.id], False
+    return None, False
+
+
+def may_raise(node, mod, cls, depth=0):
+    for x in _walk_same_scope(node):
+        if isinstance(x, ast.Raise):
+            return True
+        if isinstance(x, ast.Call):
+            h, _ = resolve_helper(x, mod, cls)
+            if h is None and isinstance(x.func, ast.Name) and x.func.id in mod.classes:
+                h = mod.method(mod.classes[x.func.id], "__init__")      # a constructor of this module
+            if h is not None:
+                if depth >= MAX_INLINE + 1:
+                    return True            # too deep to know: assume it can
+                if any(may_raise(s, mod, cls, depth + 1) for s in h.body):
+                    return True
+    return False
+
+
+def raise_exc(stmts):
+    """exception class name of the `raise X(...)` statements in a statement list (exactly one class)"""
     names = []
     for s in stmts:
-        for x in ast.walk(s):
+        for x in _walk_same_scope(s):
             if isinstance(x, ast.Raise):
                 e = x.exc
                 if isinstance(e, ast.Call):
@@ -59,21 +194,189 @@ def _raise_exc(stmts):
     return names[0]
 
 
-def _const_int(node):
-    if isinstance(node, ast.Constant) and isinstance(node.value, int) and not isinstance(node.value, bool):
-        return node.value
-    raise Unrecognised("integer literal expected at line %d: %s" % (node.lineno, ast.dump(node)))
+def always_raises(body):
+    """`<expression statements…>; raise X(...)`: nothing in the body can leave it any other way"""
+    return (bool(body) and isinstance(body[-1], ast.Raise)
+            and all(isinstance(s, ast.Expr) for s in body[:-1]))
 
 
-def _is_self_attr(node, attr=None):
-    return (isinstance(node, ast.Attribute) and isinstance(node.value, ast.Name) and node.value.id == "self"
-            and (attr is None or node.attr == attr))
+# ---------------------------------------------------------------- inlining / flattening
+class _Subst(ast.NodeTransformer):
+    def __init__(self, mapping):
+        self.mapping = mapping
+
+    def visit_Name(self, node):
+        if node.id in self.mapping:
+            new = self.mapping[node.id]
+            if isinstance(node.ctx, ast.Load):
+                return copy.deepcopy(new)
+            if isinstance(new, ast.Name):
+                return ast.copy_location(ast.Name(id=new.id, ctx=node.ctx), node)
+            raise Unrecognised("assignment to a parameter of an inlined helper: " + node.id)
+        return node
 
 
-def _src(node):
-    return ast.unparse(node)
+def inline_call(call, target, helper, is_method, uid):
+    """statements equivalent to `target = helper(args)` / `helper(args)`; None if not expressible"""
+    a = helper.args
+    if a.vararg or a.kwarg or a.kwonlyargs or a.posonlyargs:
+        raise Unrecognised(f"helper {helper.name}: unsupported signature")
+    params = [x.arg for x in a.args]
+    if is_method:
+        if not params:
+            raise Unrecognised(f"helper {helper.name}: no self")
+        self_name, params = params[0], params[1:]
+    defaults = dict(zip(params[len(params) - len(a.defaults):], a.defaults)) if a.defaults else {}
+    if any(isinstance(x, ast.Starred) for x in call.args) or any(k.arg is None for k in call.keywords):
+        raise Unrecognised(f"call of {helper.name} with * / **")
+    if len(call.args) > len(params):
+        raise Unrecognised(f"call of {helper.name}: too many arguments")
+    mapping = dict(zip(params, call.args))
+    for k in call.keywords:
+        if k.arg not in params or k.arg in mapping:
+            raise Unrecognised(f"call of {helper.name}: bad keyword {k.arg}")
+        mapping[k.arg] = k.value
+    for p_ in params:
+        if p_ not in mapping:
+            if p_ not in defaults:
+                raise Unrecognised(f"call of {helper.name}: missing argument {p_}")
+            mapping[p_] = defaults[p_]
+    body = [copy.deepcopy(s) for s in helper.body]
+    if body and isinstance(body[0], ast.Expr) and isinstance(body[0].value, ast.Constant) \
+            and isinstance(body[0].value.value, str):
+        body = body[1:]                                   # docstring
+    stored = {x.id for s in body for x in _walk_same_scope(s) if isinstance(x, ast.Name) and isinstance(x.ctx, ast.Store)}
+    if stored & set(params) or (is_method and self_name in stored):
+        raise Unrecognised(f"helper {helper.name} assigns to a parameter")
+    if any(isinstance(x, (ast.Global, ast.Nonlocal, ast.Yield, ast.YieldFrom, ast.Await))
+           for s in body for x in _walk_same_scope(s)):
+        raise Unrecognised(f"helper {helper.name}: global / yield")
+    rename = {n: ast.Name(id=f"{n}${helper.name}{uid}", ctx=ast.Load()) for n in stored}
+    if is_method and self_name != "self":
+        mapping[self_name] = ast.Name(id="self", ctx=ast.Load())
+    sub = _Subst({**mapping, **rename})
+    body = [sub.visit(s) for s in body]
+    rets = [x for s in body for x in _walk_same_scope(s) if isinstance(x, ast.Return)]
+    last_ret = body[-1] if body and isinstance(body[-1], ast.Return) else None
+    if any(r is not last_ret for r in rets):
+        return None                                       # early return: control flow not straight-line
+    if last_ret is not None:
+        body = body[:-1]
+        if target is not None:
+            val = last_ret.value if last_ret.value is not None else ast.Constant(value=None)
+            body.append(ast.copy_location(ast.Assign(targets=[target], value=val, lineno=call.lineno), call))
+    elif target is not None:
+        body.append(ast.copy_location(ast.Assign(targets=[target], value=ast.Constant(value=None), lineno=call.lineno), call))
+    for s in body:
+        ast.fix_missing_locations(s)
+    return body
 
 
+def flatten(stmts, mod, cls, buffarg, depth=0, counter=None):
+    """the statement list with raising helpers inlined and `with buff.raw.getbuffer() as v:` opened"""
+    counter = counter if counter is not None else itertools.count(1)
+    out = []
+    for st in stmts:
+        if isinstance(st, ast.With) and len(st.items) == 1 and isinstance(st.items[0].optional_vars, ast.Name) \
+                and _src(st.items[0].context_expr) == f"{buffarg}.raw.getbuffer()":
+            # memoryview.__exit__ releases the view and suppresses nothing: same as straight-line code
+            out.append(ast.copy_location(ast.Assign(targets=[st.items[0].optional_vars],
+                                                    value=st.items[0].context_expr, lineno=st.lineno), st))
+            out += flatten(st.body, mod, cls, buffarg, depth, counter)
+            continue
+        call, target = None, None
+        if isinstance(st, ast.Expr) and isinstance(st.value, ast.Call):
+            call = st.value
+        elif isinstance(st, ast.Assign) and len(st.targets) == 1 and isinstance(st.value, ast.Call):
+            call, target = st.value, st.targets[0]
+        if call is not None:
+            h, is_m = resolve_helper(call, mod, cls)
+            if h is not None and may_raise(ast.Module(body=h.body, type_ignores=[]), mod, cls, depth + 1) \
+                    and not any(may_raise(x, mod, cls, depth) for x in list(call.args) + [k.value for k in call.keywords]):
+                if depth >= MAX_INLINE:
+                    raise Unrecognised(f"helpers nested deeper than {MAX_INLINE}: {h.name}")
+                body = inline_call(call, target, h, is_m, next(counter))
+                if body is None:
+                    raise Unrecognised(f"helper {h.name} can raise and returns early")
+                out += flatten(body, mod, cls, buffarg, depth + 1, counter)
+                continue
+        out.append(st)
+    return out
+
+
+# ---------------------------------------------------------------- locals
+class Locals:
+    """definitions of locals / self attributes in straight-line code, replaced at the point of use"""
+
+    def __init__(self, flat):
+        top = {}
+        for st in flat:
+            if isinstance(st, ast.Assign):
+                for t in st.targets:
+                    for e in (t.elts if isinstance(t, (ast.Tuple, ast.List)) else [t]):
+                        k = self.key(e)
+                        if k:
+                            top[k] = top.get(k, 0) + 1
+        allst = {}
+        for st in flat:
+            for x in _walk_same_scope(st):
+                k = None
+                if isinstance(x, ast.Name) and isinstance(x.ctx, (ast.Store, ast.Del)):
+                    k = x.id
+                elif isinstance(x, ast.Attribute) and isinstance(x.ctx, (ast.Store, ast.Del)) and _is_self_attr(x):
+                    k = "self." + x.attr
+                if k:
+                    allst[k] = allst.get(k, 0) + 1
+        self.volatile = {k for k, n in allst.items() if n != top.get(k, 0)}   # also assigned under control flow
+        self.defs = {}          # key -> (resolved expr, deps, position)
+
+    @staticmethod
+    def key(e):
+        if isinstance(e, ast.Name):
+            return e.id
+        if _is_self_attr(e):
+            return "self." + e.attr
+        return None
+
+    def deps(self, expr):
+        d = set()
+        for x in _walk_same_scope(expr):
+            if isinstance(x, ast.Name):
+                d.add(x.id)
+            elif _is_self_attr(x):
+                d.add("self." + x.attr)
+        return d
+
+    def resolve(self, expr, attrs=False):
+        """replace local names (and, if attrs, self attributes) by their current definitions"""
+        env = self
+
+        class R(ast.NodeTransformer):
+            def visit_Name(self, node):
+                if isinstance(node.ctx, ast.Load) and node.id in env.defs:
+                    return copy.deepcopy(env.defs[node.id][0])
+                return node
+
+            def visit_Attribute(self, node):
+                if attrs and isinstance(node.ctx, ast.Load) and _is_self_attr(node) and "self." + node.attr in env.defs:
+                    return copy.deepcopy(env.defs["self." + node.attr][0])
+                return self.generic_visit(node)
+        return R().visit(copy.deepcopy(expr))
+
+    def assign(self, k, value, pos):
+        for other in [o for o, (_, dp, _) in self.defs.items() if k in dp]:
+            del self.defs[other]                      # what they read has changed
+        self.defs.pop(k, None)
+        if value is None or k in self.volatile:
+            return
+        r = self.resolve(value)
+        dp = self.deps(r)
+        if k in dp or dp & self.volatile - {"self"}:
+            return
+        self.defs[k] = (r, dp, pos)
+
+
+# ---------------------------------------------------------------- layout of the struct
 def field_layout(fmt, names):
     """byte offset and size of every unpacked field of a little-endian standard-size struct format"""
     items = re.findall(r"(\d*)([a-zA-Z?])", fmt)
@@ -93,18 +396,143 @@ def field_layout(fmt, names):
     return {nm: lay for nm, lay in zip(names, out)}, off
 
 
+# ---------------------------------------------------------------- the magic test
+def magic_clauses(test, mod, magic_len):
+    """disjunction of tests on self.magic -> {byte position: sorted allowed values} (raise iff some byte is not allowed)"""
+    allowed = {}
+
+    def restrict(i, vals):
+        if not 0 <= i < magic_len:
+            raise Unrecognised(f"magic index {i} outside the {magic_len} unpacked bytes")
+        vals = set(vals)
+        if not all(isinstance(v, int) and 0 <= v < 256 for v in vals):
+            raise Unrecognised("magic byte values must be 0..255")
+        allowed[i] = (allowed[i] & vals) if i in allowed else vals
+
+    values = test.values if isinstance(test, ast.BoolOp) and isinstance(test.op, ast.Or) else [test]
+    for c in values:
+        if not (isinstance(c, ast.Compare) and len(c.ops) == 1 and isinstance(c.left, ast.Subscript)
+                and _is_self_attr(c.left.value, "magic")):
+            raise Unrecognised("magic clause: " + _src(c))
+        sl, op, rhs = c.left.slice, c.ops[0], c.comparators[0]
+        if isinstance(sl, ast.Slice):
+            lo = const_int(sl.lower, mod) if sl.lower is not None else 0
+            if sl.upper is None or sl.step is not None:
+                raise Unrecognised("magic slice: " + _src(c))
+            hi_ = const_int(sl.upper, mod)
+            if not 0 <= lo < hi_ <= magic_len:
+                raise Unrecognised("magic slice bounds: " + _src(c))
+            if isinstance(op, ast.NotEq):
+                strings = [const_value(rhs, mod)]
+            elif isinstance(op, ast.NotIn) and isinstance(rhs, (ast.List, ast.Tuple, ast.Set)):
+                strings = [const_value(e, mod) for e in rhs.elts]
+            else:
+                raise Unrecognised("magic slice clause: " + _src(c))
+            if not strings or not all(isinstance(s_, bytes) and len(s_) == hi_ - lo for s_ in strings):
+                raise Unrecognised("magic slice compared with strings of another length: " + _src(c))
+            per = [sorted({s_[j] for s_ in strings}) for j in range(hi_ - lo)]
+            prod = 1
+            for p_ in per:
+                prod *= len(p_)
+            if prod != len(set(strings)):
+                raise Unrecognised("magic slice set is not a product of per-byte sets: " + _src(c))
+            for j, p_ in enumerate(per):
+                restrict(lo + j, p_)
+        else:
+            i = const_int(sl, mod)
+            if i < 0:
+                i += magic_len
+            if isinstance(op, ast.NotIn) and isinstance(rhs, (ast.List, ast.Tuple, ast.Set)):
+                restrict(i, [const_int(e, mod) for e in rhs.elts])
+            elif isinstance(op, ast.NotEq):
+                restrict(i, [const_int(rhs, mod)])
+            else:
+                raise Unrecognised("magic byte clause: " + _src(c))
+    return [("byteNotIn", i, sorted(allowed[i])) for i in sorted(allowed)]
+
+
+# ---------------------------------------------------------------- DalvikPacker.__init__
+def packer_table(dp, mod):
+    targ = dp.args.args[1].arg
+    if any(isinstance(x, ast.Name) and x.id == targ and isinstance(x.ctx, ast.Store) for x in _walk_same_scope(dp)):
+        raise Unrecognised("DalvikPacker.__init__ assigns to its parameter")
+
+    def action(stmts):
+        if any(isinstance(x, ast.Raise) for s in stmts for x in _walk_same_scope(s)):
+            if not always_raises(stmts):
+                raise Unrecognised("DalvikPacker branch raises conditionally")
+            e = raise_exc(stmts)
+            if e == "NotImplementedError":
+                return "notImplemented"
+            if e == "ValueError":
+                return "valueError"
+            raise Unrecognised("DalvikPacker raises " + e)
+        if any(isinstance(s, (ast.If, ast.For, ast.While, ast.Try, ast.With, ast.Return)) for s in stmts):
+            raise Unrecognised("DalvikPacker branch with control flow")
+        for s in stmts:
+            if (isinstance(s, ast.Assign) and _is_self_attr(s.targets[0], "endian_tag")
+                    and isinstance(s.value, ast.Constant) and s.value.value == "<"):
+                return "little"
+        raise Unrecognised("DalvikPacker branch: " + "; ".join(_src(s) for s in stmts))
+
+    cases = []
+
+    def parse(stmts):
+        """-> action taken when no earlier case matched"""
+        for k, st in enumerate(stmts):
+            if isinstance(st, ast.If):
+                t = st.test
+                if not (isinstance(t, ast.Compare) and len(t.ops) == 1 and isinstance(t.ops[0], ast.Eq)):
+                    raise Unrecognised("DalvikPacker test: " + _src(t))
+                a, b = t.left, t.comparators[0]
+                if isinstance(b, ast.Name) and b.id == targ:
+                    a, b = b, a
+                if not (isinstance(a, ast.Name) and a.id == targ):
+                    raise Unrecognised("DalvikPacker test: " + _src(t))
+                act = action(st.body)
+                cases.append((const_int(b, mod), act))
+                if st.orelse:
+                    rest_has_raise = any(isinstance(x, ast.Raise) for s in stmts[k + 1:] for x in _walk_same_scope(s))
+                    if rest_has_raise or any(isinstance(s, ast.If) for s in stmts[k + 1:]):
+                        raise Unrecognised("DalvikPacker: guards after an if/else")
+                    return parse(st.orelse) if (len(st.orelse) == 1 and isinstance(st.orelse[0], ast.If)) \
+                        else action(st.orelse)
+                if act == "little":
+                    raise Unrecognised("DalvikPacker: an accepting branch without else falls into later tests")
+                continue                       # body always raises: the rest is the else part
+            if any(isinstance(x, ast.Raise) for x in _walk_same_scope(st)):
+                if isinstance(st, ast.Raise) and all(isinstance(s, ast.Expr) for s in stmts[:k] if not isinstance(s, ast.If)):
+                    return action([s for s in stmts[:k + 1] if not isinstance(s, ast.If)])
+                raise Unrecognised("DalvikPacker: raising statement outside the chain: " + _src(st))
+        raise Unrecognised("DalvikPacker: an unknown endian tag falls through")
+
+    els = parse(dp.body)
+    return cases, els
+
+
+# ---------------------------------------------------------------- HeaderItem.__init__
 def extract(repo):
     path = os.path.join(repo, SRC)
     tree = ast.parse(open(path, encoding="utf-8").read())
-    hi = _cls(tree, "HeaderItem")
-    init = _fn(hi, "__init__")
-    glen = _fn(hi, "get_length")
-    rets = [s for s in ast.walk(glen) if isinstance(s, ast.Return)]
-    if len(rets) != 1:
-        raise Unrecognised("HeaderItem.get_length: one return expected")
-    info = {"headerLength": _const_int(rets[0].value), "order": []}
+    mod = Module(tree)
+    if "HeaderItem" not in mod.classes or "DalvikPacker" not in mod.classes:
+        raise Unrecognised("class HeaderItem / DalvikPacker not found")
+    hi = mod.classes["HeaderItem"]
+    init, glen = mod.method(hi, "__init__"), mod.method(hi, "get_length")
+    if init is None or glen is None:
+        raise Unrecognised("HeaderItem.__init__ / get_length not found")
+    rets = [s for s in _walk_same_scope(glen) if isinstance(s, ast.Return)]
+    if len(rets) != 1 or rets[0] is not glen.body[-1]:
+        raise Unrecognised("HeaderItem.get_length: a single return expected")
+    info = {"headerLength": const_int(rets[0].value, mod), "order": []}
     layout = None
+    if len(init.args.args) < 4:
+        raise Unrecognised("HeaderItem.__init__(self, size, buff, cm) expected")
     buffarg = init.args.args[2].arg      # (self, size, buff, cm)
+    nbytes_src = f"{buffarg}.raw.getbuffer().nbytes"
+
+    flat = flatten(init.body, mod, hi, buffarg)
+    loc = Locals(flat)
 
     def need_unpacked(field):
         if layout is None or field not in layout:
@@ -114,90 +542,128 @@ def extract(repo):
             raise Unrecognised(f"self.{field} is not an unsigned 32-bit field ({ch})")
         return off
 
-    for st in init.body:
-        # --- (self.endian_tag,) = unpack('<I', read_at(buff, 40, 4))
-        if (isinstance(st, ast.Assign) and isinstance(st.value, ast.Call) and isinstance(st.value.func, ast.Name)
-                and st.value.func.id == "unpack"):
-            fmt = st.value.args[0]
-            ra = st.value.args[1]
-            if not (isinstance(fmt, ast.Constant) and fmt.value == "<I" and isinstance(ra, ast.Call)
-                    and isinstance(ra.func, ast.Name) and ra.func.id == "read_at" and len(ra.args) == 3
-                    and isinstance(ra.args[0], ast.Name) and ra.args[0].id == buffarg):
-                raise Unrecognised("endian tag read: " + _src(st))
-            tgt = st.targets[0]
-            if not (isinstance(tgt, ast.Tuple) and len(tgt.elts) == 1 and _is_self_attr(tgt.elts[0], "endian_tag")):
-                raise Unrecognised("endian tag read target: " + _src(st))
-            info["endianOff"] = _const_int(ra.args[1])
-            if _const_int(ra.args[2]) != 4:
-                raise Unrecognised("endian tag read size: " + _src(st))
-            continue
-        # --- cm.packer = DalvikPacker(self.endian_tag)
-        if (isinstance(st, ast.Assign) and isinstance(st.value, ast.Call) and isinstance(st.value.func, ast.Name)
-                and st.value.func.id == "DalvikPacker"):
-            if "endianOff" not in info or not (len(st.value.args) == 1 and _is_self_attr(st.value.args[0], "endian_tag")):
-                raise Unrecognised("DalvikPacker call: " + _src(st))
-            info["order"].append("endian")
-            continue
-        # --- (self.magic, ..., self.data_off) = cm.packer['8sI20s20I'].unpack(buff.read(112))
-        if (isinstance(st, ast.Assign) and isinstance(st.targets[0], ast.Tuple) and isinstance(st.value, ast.Call)
-                and isinstance(st.value.func, ast.Attribute) and st.value.func.attr == "unpack"
-                and isinstance(st.value.func.value, ast.Subscript)):
-            fmt = st.value.func.value.slice
-            rd = st.value.args[0]
-            if not (isinstance(fmt, ast.Constant) and isinstance(fmt.value, str) and isinstance(rd, ast.Call)
-                    and isinstance(rd.func, ast.Attribute) and rd.func.attr == "read"
-                    and isinstance(rd.func.value, ast.Name) and rd.func.value.id == buffarg):
-                raise Unrecognised("header unpack: " + _src(st))
-            names = []
-            for e in st.targets[0].elts:
-                if _is_self_attr(e):
-                    names.append(e.attr)
-                elif isinstance(e, ast.Name):
-                    names.append("_" + e.id)     # local (the second endian_tag)
-                else:
-                    raise Unrecognised("header unpack target: " + _src(e))
-            layout, total = field_layout(fmt.value, names)
-            info["unpackFmt"] = fmt.value
-            info["unpackSize"] = _const_int(rd.args[0])
-            info["fmtSize"] = total
-            info["fields"] = [(n, layout[n][0], layout[n][1], layout[n][2]) for n in names]
-            info["order"].append("unpack")
-            continue
-        if not _has_raise(st):
-            continue                        # warnings, plain assignments, the version `try`
-        if not isinstance(st, ast.If) or st.orelse or not _has_raise(ast.Module(body=st.body, type_ignores=[])):
-            raise Unrecognised("statement that can raise, not a plain guard: line %d" % st.lineno)
-        exc = _raise_exc(st.body)
-        t = st.test
-        # --- magic: a disjunction of tests on self.magic
-        if isinstance(t, ast.BoolOp) and isinstance(t.op, ast.Or):
-            clauses = []
-            for c in t.values:
-                if not (isinstance(c, ast.Compare) and len(c.ops) == 1 and isinstance(c.left, ast.Subscript)
-                        and _is_self_attr(c.left.value, "magic")):
-                    raise Unrecognised("magic clause: " + _src(c))
-                sl, op, rhs = c.left.slice, c.ops[0], c.comparators[0]
-                if isinstance(sl, ast.Slice):
-                    lo = _const_int(sl.lower) if sl.lower is not None else 0
-                    if sl.upper is None or sl.step is not None:
-                        raise Unrecognised("magic slice: " + _src(c))
-                    hi_ = _const_int(sl.upper)
-                    if not (isinstance(op, ast.NotEq) and isinstance(rhs, ast.Constant) and isinstance(rhs.value, bytes)):
-                        raise Unrecognised("magic slice clause: " + _src(c))
-                    clauses.append(("sliceNe", lo, hi_, list(rhs.value)))
-                else:
-                    i = _const_int(sl)
-                    if isinstance(op, ast.NotIn) and isinstance(rhs, (ast.List, ast.Tuple, ast.Set)):
-                        clauses.append(("byteNotIn", i, [_const_int(e) for e in rhs.elts]))
-                    elif isinstance(op, ast.NotEq):
-                        clauses.append(("byteNotIn", i, [_const_int(rhs)]))
+    def endian_read(expr):
+        """offset OFF if expr reads the little-endian u32 at OFF of the buffer, with how"""
+        how = "unpack"
+        e = expr
+        if isinstance(e, ast.Subscript) and isinstance(e.slice, ast.Constant) and e.slice.value == 0:
+            e = e.value                                                  # unpack(...)[0]
+        elif isinstance(e, ast.Call) and _src(e.func) == "int.from_bytes":
+            kw = {k.arg: k.value for k in e.keywords}
+            args = list(e.args)
+            order = args[1] if len(args) > 1 else kw.pop("byteorder", None)
+            signed = kw.pop("signed", None)
+            if len(args) not in (1, 2) or kw or order is None or const_value(order, mod) != "little" \
+                    or (signed is not None and not (isinstance(signed, ast.Constant) and signed.value is False)):
+                raise Unrecognised("endian tag read: " + _src(expr))
+            how, e = "from_bytes", args[0]
+            ra = e
+            e = None
+        else:
+            raise Unrecognised("endian tag read: " + _src(expr))
+        if how == "unpack":
+            if not (isinstance(e, ast.Call) and _src(e.func) in ("unpack", "struct.unpack") and len(e.args) == 2
+                    and not e.keywords and const_value(e.args[0], mod) == "<I"):
+                raise Unrecognised("endian tag read: " + _src(expr))
+            ra = e.args[1]
+        if not (isinstance(ra, ast.Call) and isinstance(ra.func, ast.Name) and ra.func.id == "read_at"
+                and len(ra.args) == 3 and not ra.keywords and isinstance(ra.args[0], ast.Name) and ra.args[0].id == buffarg
+                and const_int(ra.args[2], mod) == 4):
+            raise Unrecognised("endian tag read: " + _src(expr))
+        return const_int(ra.args[1], mod), how
+
+    def checksummed_from(expr):
+        """K if expr denotes the bytes of the buffer from self.offset + K to its end"""
+        start = None
+        if (isinstance(expr, ast.Call) and isinstance(expr.func, ast.Name) and expr.func.id == "read_at"
+                and len(expr.args) == 2 and not expr.keywords and _src(expr.args[0]) == buffarg):
+            start = expr.args[1]
+        elif (isinstance(expr, ast.Subscript) and _src(expr.value) == f"{buffarg}.raw.getbuffer()"
+              and isinstance(expr.slice, ast.Slice) and expr.slice.upper is None and expr.slice.step is None
+              and expr.slice.lower is not None):
+            start = expr.slice.lower
+        if not (isinstance(start, ast.BinOp) and isinstance(start.op, ast.Add)):
+            raise Unrecognised("checksummed bytes: " + _src(expr))
+        a, b = start.left, start.right
+        if _is_self_attr(b, "offset"):
+            a, b = b, a
+        if not _is_self_attr(a, "offset"):
+            raise Unrecognised("checksummed bytes: " + _src(expr))
+        return const_int(b, mod)
+
+    for pos, st in enumerate(flat):
+        # --- plain assignments: remember definitions; recognise DalvikPacker(...) and the header unpack
+        if isinstance(st, ast.Assign) and len(st.targets) == 1:
+            tgt, val = st.targets[0], st.value
+            # cm.packer = DalvikPacker(<endian tag>)
+            if isinstance(val, ast.Call) and isinstance(val.func, ast.Name) and val.func.id == "DalvikPacker":
+                if len(val.args) != 1 or val.keywords:
+                    raise Unrecognised("DalvikPacker call: " + _src(st))
+                arg = loc.resolve(val.args[0], attrs=True)
+                src_key = loc.key(val.args[0])
+                dpos = loc.defs[src_key][2] if src_key in loc.defs else len(info["order"])
+                off, how = endian_read(arg)
+                if dpos != len(info["order"]):
+                    raise Unrecognised("a guard stands between the endian tag read and DalvikPacker(...)")
+                if how == "from_bytes" and not ("size" in info["order"] and info.get("sizeCmp") == "lt"
+                                                and info["headerLength"] >= off + 4):
+                    raise Unrecognised("int.from_bytes endian read without a preceding size guard")
+                info["endianOff"] = off
+                info["order"].append("endian")
+                continue
+            # (self.magic, ..., self.data_off) = cm.packer['8sI20s20I'].unpack(buff.read(112))
+            if (isinstance(tgt, ast.Tuple) and len(tgt.elts) > 1 and isinstance(val, ast.Call)
+                    and isinstance(val.func, ast.Attribute) and val.func.attr == "unpack"
+                    and isinstance(val.func.value, ast.Subscript) and len(val.args) == 1):
+                rd = val.args[0]
+                if not (isinstance(rd, ast.Call) and isinstance(rd.func, ast.Attribute) and rd.func.attr == "read"
+                        and isinstance(rd.func.value, ast.Name) and rd.func.value.id == buffarg and len(rd.args) == 1):
+                    raise Unrecognised("header unpack: " + _src(st))
+                fmt = const_value(loc.resolve(val.func.value.slice), mod)
+                if not isinstance(fmt, str):
+                    raise Unrecognised("header unpack format: " + _src(st))
+                names = []
+                for e in tgt.elts:
+                    if _is_self_attr(e):
+                        names.append(e.attr)
+                    elif isinstance(e, ast.Name):
+                        names.append("_" + e.id.lstrip("_"))     # a local (the second endian_tag)
                     else:
-                        raise Unrecognised("magic byte clause: " + _src(c))
+                        raise Unrecognised("header unpack target: " + _src(e))
+                    loc.assign(loc.key(e), None, len(info["order"]))
+                layout, total = field_layout(fmt, names)
+                info["unpackFmt"] = fmt
+                info["unpackSize"] = const_int(loc.resolve(rd.args[0]), mod)
+                info["fmtSize"] = total
+                info["fields"] = [(n, layout[n][0], layout[n][1], layout[n][2]) for n in names]
+                info["order"].append("unpack")
+                continue
+            if may_raise(st, mod, hi):
+                raise Unrecognised("assignment that can raise: line %d: %s" % (st.lineno, _src(st)[:120]))
+            elts = tgt.elts if isinstance(tgt, (ast.Tuple, ast.List)) else [tgt]
+            if len(elts) == 1:
+                v = val
+                if isinstance(tgt, (ast.Tuple, ast.List)):       # (x,) = E   ==   x = E[0] for a 1-sequence
+                    v = ast.Subscript(value=val, slice=ast.Constant(value=0), ctx=ast.Load())
+                loc.assign(loc.key(elts[0]), v, len(info["order"]))
+            else:
+                for e in elts:
+                    loc.assign(loc.key(e), None, len(info["order"]))
+            continue
+        if not may_raise(st, mod, hi):
+            continue                        # warnings, the version `try`, logging (their stores are volatile)
+        if not isinstance(st, ast.If) or st.orelse or not always_raises(st.body) or may_raise(st.test, mod, hi):
+            raise Unrecognised("statement that can raise, not a plain guard: line %d: %s"
+                               % (st.lineno, _src(st).split("\n")[0][:120]))
+        exc = raise_exc(st.body)
+        t = loc.resolve(st.test)
+        # --- magic: a disjunction of tests on self.magic
+        if any(_is_self_attr(x, "magic") for x in _walk_same_scope(t)):
             need = layout and layout.get("magic")
             if not need or need[2] != "s":
                 raise Unrecognised("magic guard before/without the header unpack")
             info["magicOff"], info["magicLen"] = need[0], need[1]
-            info["magicClauses"] = clauses
+            info["magicClauses"] = magic_clauses(t, mod, need[1])
             info["magicExc"] = exc
             info["order"].append("magic")
             continue
@@ -206,73 +672,52 @@ def extract(repo):
         op = CMP[type(t.ops[0])]
         lhs, rhs = t.left, t.comparators[0]
         # --- size: buff.raw.getbuffer().nbytes < self.get_length()
-        if "nbytes" in _src(lhs) and _src(rhs) == "self.get_length()":
-            if _src(lhs) != f"{buffarg}.raw.getbuffer().nbytes":
-                raise Unrecognised("size guard: " + _src(t))
+        if nbytes_src in (_src(lhs), _src(rhs)):
+            if _src(rhs) == nbytes_src:
+                lhs, rhs, op = rhs, lhs, FLIP[op]
+            if _src(rhs) == "self.get_length()":
+                pass
+            else:
+                n = const_int(rhs, mod)
+                if n != info["headerLength"]:
+                    raise Unrecognised("size guard against a constant other than get_length()")
             info["sizeCmp"], info["sizeExc"] = op, exc
             info["order"].append("size")
             continue
-        # --- checksum: zlib.adler32(read_at(buff, self.offset + 12)) != self.checksum
-        if "adler32" in _src(lhs):
-            ok = (isinstance(lhs, ast.Call) and _src(lhs.func) == "zlib.adler32" and len(lhs.args) == 1
-                  and isinstance(lhs.args[0], ast.Call) and _src(lhs.args[0].func) == "read_at"
-                  and len(lhs.args[0].args) == 2 and _src(lhs.args[0].args[0]) == buffarg
-                  and isinstance(lhs.args[0].args[1], ast.BinOp) and isinstance(lhs.args[0].args[1].op, ast.Add)
-                  and _is_self_attr(lhs.args[0].args[1].left, "offset") and _is_self_attr(rhs))
-            if not ok:
+        # --- checksum: zlib.adler32(<bytes from self.offset + K>) != self.checksum
+        if "adler32" in _src(t):
+            if "adler32" in _src(rhs):
+                lhs, rhs, op = rhs, lhs, FLIP[op]
+            if not (isinstance(lhs, ast.Call) and _src(lhs.func) == "zlib.adler32" and len(lhs.args) == 1
+                    and not lhs.keywords and _is_self_attr(rhs)):
                 raise Unrecognised("checksum guard: " + _src(t))
-            info["checksumStart"] = _const_int(lhs.args[0].args[1].right)
+            info["checksumStart"] = checksummed_from(lhs.args[0])
             info["checksumOff"] = need_unpacked(rhs.attr)
             info["checksumField"] = rhs.attr
             info["checksumCmp"], info["checksumExc"] = op, exc
             info["order"].append("checksum")
             continue
         # --- self.<field> <op> <const>
+        if _is_self_attr(rhs) and not _is_self_attr(lhs):
+            lhs, rhs, op = rhs, lhs, FLIP[op]
         if _is_self_attr(lhs) and lhs.attr in ("header_size", "type_ids_size", "proto_ids_size"):
             key = {"header_size": "headerSize", "type_ids_size": "typeIds", "proto_ids_size": "protoIds"}[lhs.attr]
+            if key in info["order"]:
+                raise Unrecognised("two guards on self." + lhs.attr)
             info[key + "Off"] = need_unpacked(lhs.attr)
-            info[key + "Cmp"], info[key + "Const"], info[key + "Exc"] = op, _const_int(rhs), exc
+            info[key + "Cmp"], info[key + "Const"], info[key + "Exc"] = op, const_int(rhs, mod), exc
             info["order"].append(key)
             continue
         raise Unrecognised("guard not modelled: " + _src(t))
 
-    # --- DalvikPacker.__init__: if tag == C1: raise ... elif tag == C2: self.endian_tag = '<' else: raise ...
-    dp = _fn(_cls(tree, "DalvikPacker"), "__init__")
-    targ = dp.args.args[1].arg
-    cases, els = [], None
-    chain = [s for s in dp.body if isinstance(s, ast.If)]
-    if len(chain) != 1 or any(_has_raise(s) for s in dp.body if not isinstance(s, ast.If)):
-        raise Unrecognised("DalvikPacker.__init__: one if-chain expected")
+    for c in ("size", "endian", "unpack", "magic", "checksum"):
+        if info["order"].count(c) > 1:
+            raise Unrecognised(f"guard {c} occurs twice")
 
-    def action(stmts):
-        if _has_raise(ast.Module(body=stmts, type_ignores=[])):
-            e = _raise_exc(stmts)
-            if e == "NotImplementedError":
-                return "notImplemented"
-            if e == "ValueError":
-                return "valueError"
-            raise Unrecognised("DalvikPacker raises " + e)
-        for s in stmts:
-            if (isinstance(s, ast.Assign) and _is_self_attr(s.targets[0], "endian_tag")
-                    and isinstance(s.value, ast.Constant) and s.value.value == "<"):
-                return "little"
-        raise Unrecognised("DalvikPacker branch: " + "; ".join(_src(s) for s in stmts))
-
-    node = chain[0]
-    while True:
-        t = node.test
-        if not (isinstance(t, ast.Compare) and len(t.ops) == 1 and isinstance(t.ops[0], ast.Eq)
-                and isinstance(t.left, ast.Name) and t.left.id == targ):
-            raise Unrecognised("DalvikPacker test: " + _src(t))
-        cases.append((_const_int(t.comparators[0]), action(node.body)))
-        if len(node.orelse) == 1 and isinstance(node.orelse[0], ast.If):
-            node = node.orelse[0]
-            continue
-        if not node.orelse:
-            raise Unrecognised("DalvikPacker: an unknown endian tag falls through")
-        els = action(node.orelse)
-        break
-    info["endianCases"], info["endianElse"] = cases, els
+    dp = mod.method(mod.classes["DalvikPacker"], "__init__")
+    if dp is None or len(dp.args.args) != 2:
+        raise Unrecognised("DalvikPacker.__init__(self, endian_tag) expected")
+    info["endianCases"], info["endianElse"] = packer_table(dp, mod)
 
     for k in ("endianOff", "unpackFmt"):
         if k not in info:
